@@ -22,7 +22,22 @@ pub fn gens() -> Vec<Gen> {
 }
 
 pub fn credential(k: usize) -> Cfg {
-    if (k / 3) % 4 == 3 {
+    if (k / 3) % 5 == 4 {
+        // selectively-disclosable members that are NAMED like registered JWT claims, in nested
+        // objects and inside array elements
+        let claims = json!({
+            "iss": "https://issuer.example/i", "exp": FAR_EXP, "vis": "v",
+            "licence": {"iss": "dmv", "sub": "s", "aud": "a", "exp": 1, "nbf": 2, "iat": 3, "jti": "j", "cnf": {"k": 1}, "typ": "t", "alg": "none"},
+            "devices": [{"cnf": {"jwk": "x"}, "iss": "dev", "exp": 9}]
+        });
+        let strategy = match k % 3 {
+            0 => Strategy::Custom(vec!["$.licence.iss".into(), "$.licence.exp".into(), "$.licence.nbf".into(), "$.licence.cnf".into(), "$.devices[0]".into(), "$.devices[0].cnf".into()]),
+            1 => Strategy::AllLevels,
+            _ => Strategy::Custom(vec!["$.licence.sub".into(), "$.licence.aud".into(), "$.licence.iat".into(), "$.licence.jti".into(), "$.licence.typ".into(), "$.licence.alg".into(), "$.devices[0].iss".into(), "$.devices[0].exp".into()]),
+        };
+        return Cfg::simple(claims, strategy).variant(k);
+    }
+    if (k / 3) % 5 == 3 {
         // members whose names merely start with `_sd`, kept in clear in nested objects and inside
         // disclosed values / disclosed array elements
         let claims = json!({
@@ -37,7 +52,7 @@ pub fn credential(k: usize) -> Cfg {
         };
         return Cfg::simple(claims, strategy).variant(k);
     }
-    if (k / 3) % 4 == 2 {
+    if (k / 3) % 5 == 2 {
         // null / false / 0 / "" / [] / {} as hidden array elements and hidden member values
         let claims = json!({"iss": "https://issuer.example/i", "exp": FAR_EXP, "vis": "v", "ms": [12, null, false, 0, "", [], {}], "o": {"n": null, "z": 0}});
         let strategy = match k % 3 {
@@ -47,7 +62,7 @@ pub fn credential(k: usize) -> Cfg {
         };
         return Cfg::simple(claims, strategy).variant(k);
     }
-    if (k / 3) % 4 == 1 {
+    if (k / 3) % 5 == 1 {
         // arrays directly inside arrays, hidden on both levels
         let claims = json!({"iss": "https://issuer.example/i", "exp": FAR_EXP, "vis": "v", "m": [["LIS", "MAD"], ["OSL"]]});
         let strategy = match k % 3 {
@@ -109,7 +124,7 @@ fn garbage_pool() -> Vec<J> {
 /// Cheap first pass: the full genuine list, the empty list, each single disclosure, each
 /// list with one disclosure left out, for every credential.
 fn cases_genuine(_rng: &mut Rng, sink: &mut dyn FnMut(J) -> bool) {
-    for k in 0..24 {
+    for k in 0..30 {
         let n = n_genuine(k);
         let all: Vec<J> = (0..n).map(|i| json!({ "g": i })).collect();
         let mut lists = vec![all.clone(), vec![]];
@@ -181,7 +196,7 @@ fn cases_smuggled(_rng: &mut Rng, sink: &mut dyn FnMut(J) -> bool) {
 }
 
 fn cases_single(_rng: &mut Rng, sink: &mut dyn FnMut(J) -> bool) {
-    for k in 0..12 {
+    for k in 0..15 {
         let n = n_genuine(k);
         let genuine: Vec<J> = (0..n).map(|i| json!({ "g": i })).collect();
         let mut devs: Vec<J> = Vec::new();
@@ -225,7 +240,7 @@ fn cases_single(_rng: &mut Rng, sink: &mut dyn FnMut(J) -> bool) {
 }
 
 fn cases_triples(_rng: &mut Rng, sink: &mut dyn FnMut(J) -> bool) {
-    for k in [0usize, 1, 4, 7, 9] {
+    for k in [0usize, 1, 4, 7, 9, 12] {
         let mut pool: Vec<J> = vec![json!({"g": 0}), json!({"g": 1}), json!({"g": 2}), json!({"g": 3})];
         pool.extend(forged_pool().into_iter().take(7));
         pool.extend(garbage_pool().into_iter().take(4));
@@ -244,9 +259,11 @@ fn cases_triples(_rng: &mut Rng, sink: &mut dyn FnMut(J) -> bool) {
 }
 
 fn cases_subsets(rng: &mut Rng, sink: &mut dyn FnMut(J) -> bool) {
-    for k in 0..12 {
+    for k in 0..15 {
         let n = n_genuine(k);
-        for mask in 0u32..(1 << n) {
+        // all subsets up to 12 disclosures, a sample beyond
+        let masks: Vec<u32> = if n <= 12 { (0u32..(1 << n)).collect() } else { (0..3000).map(|_| (rng.next() as u32) & ((1u32 << n) - 1)).collect() };
+        for mask in masks {
             let subset: Vec<J> = (0..n).filter(|i| mask >> i & 1 == 1).map(|i| json!({ "g": i })).collect();
             let mut orders = vec![subset.clone()];
             if subset.len() > 1 {
@@ -273,7 +290,7 @@ fn cases_random(rng: &mut Rng, sink: &mut dyn FnMut(J) -> bool) {
     let forged = forged_pool();
     let garbage = garbage_pool();
     loop {
-        let k = rng.below(24);
+        let k = rng.below(30);
         let n = n_genuine(k);
         let len = rng.below(8);
         let mut l = Vec::new();
